@@ -213,7 +213,7 @@ CLAIMED = {
              "offsets), a device linking them; the REAL slow path (PacketVar.get/set on current_data) and the REAL generated FastSyncGroup program (in the "
              "kernel-validated Coq ISA model) run on the same random frames; both results must equal the model's and the own-bits/bytes-only oracle, "
              "and both groups must place the terminal regions identically.",
-        note=TB + "Partial: ProcessDesc (PDO-table lookup) is exercised only through the EL7041 layout of C26; register allocation / emission are covered by "
+        note=TB + "Partial: the PDO table behind ProcessDesc is hand-made (not parsed from a terminal); register allocation / emission are covered by "
              "execution only; a little-endian host is assumed.",
         technique="Coq proofs at bit level (Z.testbit) + execution of the real Python path and the real generated program on the same frames",
         ref="7/C19"),
